@@ -341,6 +341,7 @@ func (h *httpServerHandler) handlePostRequest(ctx context.Context, w http.Respon
 			errorResp := newJSONRPCErrorResponse(req.ID, ErrCodeInternal, err.Error(), nil)
 			if err := sseResponder.respond(ctx, w, r, errorResp, session); err != nil {
 				h.logger.Errorf("Failed to send SSE system error response: %v", err)
+				http.Error(w, "Internal server error", http.StatusInternalServerError)
 			}
 			return
 		}
@@ -349,6 +350,7 @@ func (h *httpServerHandler) handlePostRequest(ctx context.Context, w http.Respon
 		if errorResp, ok := resp.(*JSONRPCError); ok {
 			if err := sseResponder.respond(ctx, w, r, errorResp, session); err != nil {
 				h.logger.Errorf("Failed to send SSE business error response: %v", err)
+				http.Error(w, "Internal server error", http.StatusInternalServerError)
 			}
 			return
 		}
@@ -376,6 +378,7 @@ func (h *httpServerHandler) handlePostRequest(ctx context.Context, w http.Respon
 		errorResp := newJSONRPCErrorResponse(req.ID, ErrCodeInternal, err.Error(), nil)
 		if err := responder.respond(respCtx, w, r, errorResp, session); err != nil {
 			h.logger.Errorf("Failed to send system error response: %v", err)
+			http.Error(w, "Internal server error", http.StatusInternalServerError)
 		}
 		return
 	}
@@ -384,6 +387,7 @@ func (h *httpServerHandler) handlePostRequest(ctx context.Context, w http.Respon
 	if errorResp, ok := resp.(*JSONRPCError); ok {
 		if err := responder.respond(respCtx, w, r, errorResp, session); err != nil {
 			h.logger.Errorf("Failed to send business error response: %v", err)
+			http.Error(w, "Internal server error", http.StatusInternalServerError)
 		}
 		return
 	}
